@@ -22,15 +22,20 @@ import (
 	"verifharness/tla"
 )
 
-// deploy: every contract of the universe holds the image of the tree; returns the base block, the image, the ample gas.
-func (w *world) deploy(root *Node, baseStor map[string]map[string]int, bal map[string]int) (common.Hash, []byte, uint64, error) {
-	image, ample := build(root)
+// deploy: every contract of the universe holds the image of the tree in the shape of its address; returns the base block,
+// the image the transaction-level frame uses (a creation: as init code), the ample gas.
+func (w *world) deploy(root *Node, baseStor map[string]map[string]int, bal map[string]int, shapeOf map[string]int) (common.Hash, []byte, uint64, error) {
+	if shapeOf == nil {
+		shapeOf = defaultShapes()
+	}
+	images, lbase, ample := build(root, shapeOf)
+	w.lbase = lbase
 	codeAt := map[string][]byte{}
 	for _, n := range contractNames {
-		codeAt[n] = image
+		codeAt[n] = images[shapeOf[n]]
 	}
 	h, err := w.baseBal(codeAt, baseStor, bal)
-	return h, image, ample, err
+	return h, images[shapeOf[root.To]], ample, err
 }
 
 // runRoot: the transaction-level frame of the tree - a call with the node id as call data, or a contract creation with
@@ -42,8 +47,8 @@ func (w *world) runRoot(h common.Hash, root *Node, image []byte, gas uint64) *ru
 	return w.exec(h, "call", addrOf[root.To], []byte{byte(root.ID)}, gas, root.Val, true, obsNames)
 }
 
-func (w *world) runTree(root *Node, gas uint64, baseStor map[string]map[string]int, bal map[string]int) (*runResult, error) {
-	h, image, ample, err := w.deploy(root, baseStor, bal)
+func (w *world) runTree(root *Node, gas uint64, baseStor map[string]map[string]int, bal map[string]int, shapeOf map[string]int) (*runResult, error) {
+	h, image, ample, err := w.deploy(root, baseStor, bal, shapeOf)
 	if err != nil {
 		return nil, err
 	}
@@ -70,6 +75,7 @@ type adapter struct {
 	ids   int
 	base  map[string]map[string]int
 	bal   map[string]int
+	shape map[string]int // the shape of the code every address holds / is created with (initial state of the spec)
 }
 
 func fullBal(bal map[string]int) map[string]int {
@@ -112,7 +118,16 @@ func (a *adapter) Reset(init map[string]tla.Value) (engine.Fields, error) {
 			}
 		}
 	}
-	f := engine.Fields{"bal": a.bal, "base": fullBase(a.base)}
+	a.shape = defaultShapes()
+	if av, ok := init["an"]; ok {
+		sh := av.F("shape")
+		for _, n := range codeNames {
+			if v, ok := sh.Get(tla.Str(n)); ok {
+				a.shape[n] = v.I()
+			}
+		}
+	}
+	f := engine.Fields{"bal": a.bal, "base": fullBase(a.base), "shape": a.shape}
 	return f, nil
 }
 
@@ -144,6 +159,13 @@ func (a *adapter) Apply(s engine.Step) (engine.Fields, error) {
 	case "Log":
 		p := a.top()
 		p.Items = append(p.Items, &Item{Op: "log"})
+	case "Jump": // a jump the spec lets go on
+		p := a.top()
+		p.Items = append(p.Items, &Item{Op: "jump", Slot: arg[0].S()})
+	case "BadJump": // a jump the spec lets fail the frame
+		p := a.top()
+		p.End, p.Flavor = "fail", "jump:"+arg[0].S()
+		a.pop()
 	case "Exit":
 		p := a.top()
 		p.End = arg[0].S()
@@ -184,7 +206,7 @@ func (a *adapter) execute() (engine.Fields, error) {
 	root := a.root
 	a.root = nil
 	maxFlavour(root, func(n *Node) bool { return a.pick([]string{"", "", "", "max"}, 1000+n.ID) == "max" })
-	return runProgram(a.w, root, a.base, a.bal, a.seed, a.beh)
+	return runProgram(a.w, root, a.base, a.bal, a.shape, a.seed, a.beh)
 }
 
 // gasCap: gas amounts are logged as TLC integers
@@ -193,8 +215,8 @@ const gasCap = 1<<30 - 1
 // runProgram compiles and deploys the tree in a fresh committed base block and executes it on the real EVM: twice
 // with ample gas, twice with a seeded starved gas limit below what the ample run used (a real out-of-gas at an
 // arbitrary point), each execution on a fresh account.Manager over the same base block.
-func runProgram(w *world, root *Node, base map[string]map[string]int, bal map[string]int, seed int64, beh int) (engine.Fields, error) {
-	h, image, ample, err := w.deploy(root, base, bal)
+func runProgram(w *world, root *Node, base map[string]map[string]int, bal map[string]int, shapeOf map[string]int, seed int64, beh int) (engine.Fields, error) {
+	h, image, ample, err := w.deploy(root, base, bal, shapeOf)
 	if err != nil {
 		return nil, err
 	}
